@@ -20,6 +20,7 @@ import ExoModel.WfSite
 import ExoModel.RewriteMore
 import ExoModel.RwCheck
 import ExoModel.AlphaEq
+import ExoModel.RewriteCalls
 
 namespace Exo.WfTie
 open Exo Exo.Wf Exo.Rw Exo.WfShapes
@@ -72,6 +73,7 @@ def shapeLiftScope (path : Path) (before : List Stmt) : Except String Shape :=
 /-- the model shape a real rewrite is an instance of (parameters read off `after`) -/
 def shapeOf (name : String) (path : Path) (k : Nat) (flag : Bool) (before after : List Stmt) :
     Except String Shape :=
+  if name = "delete_pass" then .ok ⟨deletePassLocal, always, [.body 0]⟩ else
   match getAt path before with
   | none => .error "path invalid in input"
   | some sb =>
@@ -127,6 +129,77 @@ def shapeOf (name : String) (path : Path) (k : Nat) (flag : Bool) (before after 
       match sa with
       | .loop kk _ _ _ _ :: _ => .ok ⟨multLoops kk, fun Γ => multLoopsOk Γ kk, path⟩
       | _ => .error "mult_loops: unexpected shape"
+    else if name = "lift_alloc" then
+      -- conventions of `Rw.checkStorage`: `path` addresses the allocation, `k = n_lifts`
+      let L := path.length
+      if 1 ≤ k ∧ k + 1 ≤ L then
+        .ok ⟨liftAlloc (path.drop (L - k - 1)), fun Γ => liftAllocOk Γ (path.drop (L - k - 1)),
+          path.take (L - k)⟩
+      else .error "lift_alloc: fewer than n_lifts scopes above the allocation"
+    else if name = "sink_alloc" then
+      match sb with
+      | .alloc x _ :: .ite _ _ e :: _ =>
+        if e.isEmpty then .ok ⟨sinkAlloc x, fun Γ => sinkAllocOk Γ x, path⟩
+        else match sa with
+          | .ite _ _ (.alloc x' _ :: _) :: _ => .ok ⟨sinkAlloc x', fun Γ => sinkAllocOk Γ x', path⟩
+          | _ => .error "sink_alloc: else branch of the output does not start with an allocation"
+      | .alloc x _ :: .loop _ _ _ _ _ :: _ => .ok ⟨sinkAlloc x, fun Γ => sinkAllocOk Γ x, path⟩
+      | _ => .error "sink_alloc: unexpected shape"
+    else if name = "delete_buffer" then
+      match path.getLast? with
+      | some st => .ok ⟨deleteBuffer (st.idx == 0), deleteBufferOk, path⟩
+      | none => .error "delete_buffer: empty path"
+    else if name = "bind_expr" then
+      match sa with
+      | .alloc t [] :: .assign _ [] e :: s' :: _ =>
+        .ok ⟨bindExpr t e s', fun Γ => bindExprOk Γ t e s', path⟩
+      | _ => .error "bind_expr: output does not start with `t : _ ; t = e ; s'` at this path"
+    else if name = "split_write" then .ok ⟨splitWrite, always, path⟩
+    else if name = "merge_writes" then .ok ⟨mergeWrites, always, path⟩
+    else if name = "fold_into_reduce" then .ok ⟨foldIntoReduce, always, path⟩
+    else if name = "lift_reduce_constant" then .ok ⟨liftConstant, liftConstantOk, path⟩
+    else if name = "inline_assign" then
+      if modelMatches inlineAssign path before after then .ok ⟨inlineAssign, always, path⟩
+      else .ok ⟨inlineAssignOnly, always, path⟩
+    else if name = "rewrite_expr" then
+      match sa with
+      | s' :: _ => .ok ⟨rewriteExprWith s', fun Γ => rewriteExprOk Γ s', path⟩
+      | _ => .error "rewrite_expr: path invalid in output"
+    else if name = "extract_subproc" then
+      match sa with
+      | .call sub args :: _ =>
+        .ok ⟨extractBlock sub args k, fun Γ => extractBlockOk Γ sub args k, path⟩
+      | _ => .error "extract_subproc: no call at the path in the output"
+    else if name = "expand_dim" then
+      -- the new extent and the indexing expression are read off the output (as `checkStorage`)
+      match sb, sa with
+      | .alloc x _ :: _, .alloc _ (n :: _) :: r2 =>
+        .ok ⟨expandDim n (((headIdxL x r2).head?).getD (.lit (.int 0))),
+          fun Γ => expandDimOk Γ n (((headIdxL x r2).head?).getD (.lit (.int 0))), path⟩
+      | _, _ => .error "expand_dim: unexpected shape"
+    else if name = "divide_dim" then
+      match sa with
+      | .alloc _ sh2 :: _ =>
+        match sh2[k + 1]? with
+        | some (.lit (.int q)) => .ok ⟨divideDim k q, fun _ => divideDimOk, path⟩
+        | _ => .error "divide_dim: extent k+1 of the output allocation is not an integer literal"
+      | _ => .error "divide_dim: unexpected shape"
+    else if name = "mult_dim" then .ok ⟨multDim (k / 16) (k % 16), fun _ => multDimOk, path⟩
+    else if name = "resize_dim" then
+      if flag then .error "no storage model for resize_dim(fold=True)"
+      else
+        match sb, sa with
+        | .alloc x _ :: _, .alloc _ sh2 :: r2 =>
+          match sh2[k]? with
+          | some size =>
+            .ok ⟨resizeDim k size (match (dimIdxL x k r2).head? with
+                | some (.binop .sub _ o) => o
+                | _ => .lit (.int 0)),
+              fun Γ => resizeDimOk Γ size (match (dimIdxL x k r2).head? with
+                | some (.binop .sub _ o) => o
+                | _ => .lit (.int 0)), path⟩
+          | none => .error "resize_dim: the output allocation has no dimension k"
+        | _, _ => .error "resize_dim: unexpected shape"
     else .error s!"no well-formedness theorem for {name}"
 
 end Exo.WfTie
